@@ -139,6 +139,34 @@ def run(tier, seed):
             for mode in ("sync", "async"):
                 rec = events.Recorder() if mode == "sync" else events.AsyncRecorder()
                 add(record(gen.job(0, p2, prov, mode=mode), rec, cache=cache), f"cached/{kind}/{mode}/rep{rep}")
+    # 2b. a cache backend that FAILS: set() raises on its k-th call (the node's run fails there), get() on its k-th call
+    class FaultyCache(InMemoryCache):
+        def __init__(self, fail_set=0, fail_get=0):
+            super().__init__()
+            self.ns = self.ng = 0
+            self.fail_set, self.fail_get = fail_set, fail_get
+
+        def set(self, key, value):
+            self.ns += 1
+            if self.ns == self.fail_set:
+                raise OSError("cache backend: write failed")
+            return super().set(key, value)
+
+        def get(self, key):
+            self.ng += 1
+            if self.ng == self.fail_get:
+                raise OSError("cache backend: read failed")
+            return super().get(key)
+    for prog, prov, kind in programs(rng, 20 if thorough else 8):
+        p2 = copy.deepcopy(prog)
+        for _, n in IR.all_nodes(p2):
+            if n["kind"] in ("func", "route", "ifelse"):
+                n["cache"] = True
+        for mode in ("sync", "async"):
+            for fs, fg in ((1, 0), (2, 0), (0, 2)):
+                rec = events.Recorder()
+                add(record(gen.job(0, p2, prov, mode=mode), rec, cache=FaultyCache(fs, fg), eh=rng.choice(["continue", "raise"])),
+                    f"faulty-cache/{kind}/{mode}/set{fs}/get{fg}")
     # 3. mapping nodes and runner.map (C10's family)
     pairs = c10.node_jobs(rng, thorough)
     rng.shuffle(pairs)
@@ -185,7 +213,7 @@ def run(tier, seed):
     ctx.sample({"case": meta[mid["id"]][0], "status": mid["status"], "events": [(e["t"], e["node"] or e["graph"]) for e in mid["events"]][:25]})
     ctx.assumptions += ["events are recorded through the public EventProcessor / AsyncEventProcessor API (the async recorder suspends on every event)",
                         "SpanTree.tla is a trace specification: one action per event type, enabled only if legal in the current span tree; TLC consumes every recorded stream"]
-    return ctx.finish(rule="recorded event streams of terminated runs: flat / nested (depth <= 2) / gated / cyclic programs with each node failing in turn, both runners, sync and suspending async processors, raise and continue modes; cached re-runs; mapping nodes and runner.map (C10 family); controlled completion orders under max_concurrency; distinct = hash of the event-type/name sequence per case kind")
+    return ctx.finish(rule="recorded event streams of terminated runs: flat / nested (depth <= 2) / gated / cyclic programs with each node failing in turn, both runners, sync and suspending async processors, raise and continue modes; cached re-runs; cache backends whose set()/get() raise; mapping nodes and runner.map (C10 family); controlled completion orders under max_concurrency; distinct = hash of the event-type/name sequence per case kind")
 
 
 def record_map(j, rng):
